@@ -45,7 +45,7 @@ def handle : List String → String
   | ["safe", os, nc, ao, cs, ml, tbl, digest, name] =>
     match decSafeCfg? os nc ao cs ml, decTbl? tbl, decList? digest, decList? name with
     | some cfg, some tbl, some d, some n =>
-      match safeFilename cfg tbl d n with
+      match safeFilename cfg tbl (fun _ => d) n with
       | .ok r => "ok " ++ encList r
       | .error e => encExc e
     | _, _, _, _ => "bad-arg"
@@ -59,7 +59,11 @@ def handle : List String → String
       | .error e => encExc e
       | .ok raw =>
         let rawTok := encLists (raw.map (fun o => o.getD (lit "<None>")))
-        match components cfg tbl ext isftp ds url with
+        -- the logged digests, keyed by the name that was hashed
+        let keys := raw.map (fun o => (o.bind (preTrunc sc)).getD [])
+        let shaTbl := keys.zip ds
+        let sha : Str → Str := fun x => (shaTbl.lookup x).getD []
+        match components cfg tbl sha ext isftp url with
         | .error e => encExc e ++ " " ++ rawTok
         | .ok comps => "ok " ++ encList (posixJoin root comps) ++ " " ++ encLists comps ++ " " ++ rawTok
     | _, _, _, _, _, _, _, _, _, _, _, _ => "bad-arg"
@@ -89,7 +93,7 @@ def handle : List String → String
     match decSafeCfg? os nc ao cs ml, decTbl? tbl, decList? digest, decList? cur, decB? ishttp, decB? hashdr,
           decOptStr? m1, decOptStr? m2 with
     | some cfg, some tbl, some d, some cur, some ishttp, some hashdr, some m1, some m2 =>
-      match renameCD cfg tbl d cur ishttp hashdr m1 m2 with
+      match renameCD cfg tbl (fun _ => d) cur ishttp hashdr m1 m2 with
       | .ok r => "ok " ++ encList r ++ " " ++ encOpt (cdName m1 m2)
       | .error e => encExc e ++ " " ++ encOpt (cdName m1 m2)
     | _, _, _, _, _, _, _, _ => "bad-arg"
